@@ -84,7 +84,7 @@ def check(run):
     run.clause('views (shared): UDP sender from packet::from; TCP peer views from visible_ep; no NAT write to channel::ep or m_bound_to')
     rf = fx.fn1('sim::asio::ip::udp::socket::receive_from_impl')
     snd = [n for n in rf.all_nodes() if n['k'] == 'call' and n.get('opc') == '=' and q.render(rf, n['args'][0]) == '*sender']
-    run.check(bool(snd) and all(q.render(rf, n['args'][1]) == 'p.from' for n in snd), 'R2', 'udp-sender-view', rf.norm, rf.loc(), 'UDP sender is not taken from packet::from', 'UDP sender = packet::from')
+    run.check(bool(snd) and all(q.render(rf, n['args'][1]) == 'm_incoming_queue.front().from' for n in snd), 'R2', 'udp-sender-view', rf.norm, rf.loc(), 'UDP sender is not taken from packet::from', 'UDP sender = packet::from')
     st = fx.fn1('sim::asio::ip::udp::socket::send_to_impl')
     fr = [a for a in q.field_accesses(st, {P + '::from'}) if a.kind == 'assign']
     run.check(bool(fr) and all(q.render(st, a.site['args'][1] if a.site['k'] == 'call' else a.site['rhs']) == 'm_bound_to' for a in fr), 'R2', 'udp-from-bound', st.norm, st.loc(), 'packet::from is not the sender\'s bound endpoint', 'from = m_bound_to')
@@ -105,7 +105,7 @@ def check(run):
             users.setdefault(q.top_function(fx, fn).norm, (fn, a))
     for w, (fn, a) in sorted(users.items()):
         run.touch(fn)
-        run.check(w in FROM_READERS, 'R2r', 'from-users', 'packet::from used by ' + w, fn.loc(a.node),
+        run.check(w in FROM_READERS or bool(engines.helper_roots(fx, w, FROM_READERS)), 'R2r', 'from-users', 'packet::from used by ' + w, fn.loc(a.node),
                   '%s reads or writes packet::from: the source endpoint is rewritten by every NAT on the way, so any decision taken on it (matching, filtering) behaves differently behind a NAT - the NAT must change nothing but what is reported' % w,
                   'tabled: ' + FROM_READERS.get(w, ''))
     VIS_READERS = {T + '::remote_endpoint': 'reports it', 'sim::asio::ip::tcp::acceptor::check_accept_queue': 'reports it', N + '::incoming_packet': 'rewrites it', 'sim::simulation::internal_connect': 'initialises it'}
@@ -117,7 +117,7 @@ def check(run):
             users.setdefault(q.top_function(fx, fn).norm, (fn, a))
     for w, (fn, a) in sorted(users.items()):
         run.touch(fn)
-        run.check(w in VIS_READERS, 'R2r', 'visible-ep-users', 'channel::visible_ep used by ' + w, fn.loc(a.node),
+        run.check(w in VIS_READERS or bool(engines.helper_roots(fx, w, VIS_READERS)), 'R2r', 'visible-ep-users', 'channel::visible_ep used by ' + w, fn.loc(a.node),
                   '%s uses the NAT-visible endpoint for something other than reporting it to the user' % w, 'tabled: ' + VIS_READERS.get(w, ''))
     core = {'sim::asio::ip::tcp::socket', 'sim::asio::ip::tcp::acceptor', 'sim::simulation', 'sim::asio::io_context', 'sim::asio::ip::udp::socket', 'sim::queue', N}
     for fn, c in fx.callers_of_norm(T + '::remote_endpoint'):
